@@ -52,7 +52,7 @@ rows = []
 det = {}
 dp = os.path.join(root, 'seeded', 'DETECTION.txt')
 if os.path.exists(dp):
-    for l in open(dp):
+    for l in open(dp, errors='replace'):
         m = re.match(r'^(C\d\d-[a-z]): (DETECTED[^:]*|MISSED)(.*)$', l.strip())
         if m:
             rule = re.search(r'\[(C\d\d\.[a-z0-9-]+)\]', m.group(3))
